@@ -261,9 +261,23 @@ def rule_s9(F):
     return r
 
 
+def rule_s10(F):
+    """Every call returns what the same call returns single-threaded: the built-ins that read a whole list (`join`,
+    `String.from_chars`, `to_vec`) read ONE state of it - a single lock acquisition - so a concurrent `swap` on an alias cannot make a
+    call return a string with one element twice and another missing.  Shared with C15.M12 / M13."""
+    from . import c15
+    out = []
+    for rr, nid in ((c15.rule_m12(F), "C12.S10"), (c15.rule_m13(F), "C12.S11")):
+        rr.rule = nid
+        for v in rr.violations:
+            v.rule = nid
+        out.append(rr)
+    return out
+
+
 def rules(ctx):
     F = ctx["F"]
-    return [rule_s1(F), rule_s3(F), rule_s5(F), rule_s6(F), rule_s7(F), rule_s8(F), rule_s9(F)]
+    return [rule_s1(F), rule_s3(F), rule_s5(F), rule_s6(F), rule_s7(F), rule_s8(F), rule_s9(F)] + rule_s10(F)
 
 
 def thorough_rules(ctx):
